@@ -113,9 +113,8 @@ def coq_cone(rel):
             continue
         seen.append(r)
         txt = strip_comments(open(os.path.join(COQ, r)).read())
-        for m in re.finditer(r'(?:From\s+RJ\s+)?Require\s+(?:Import\s+|Export\s+)?([^.]*(?:\.[A-Za-z_][^.\s]*)*)\s*\.(?:\s|$)', txt):
+        for m in re.finditer(r'Require\s+(?:Import\s+|Export\s+)?([\w.\s]+?)\.(?:\s|$)', txt + '\n'):
             for name in m.group(1).split():
-                name = name.strip()
                 if name.startswith('RJ.'):
                     name = name[3:]
                 parts = name.split('.')
